@@ -103,6 +103,19 @@ ListOrders5 ==
   \cup {[list |-> <<ColItem("", "a", "p"), ColItem("", "a", "q")>>, order |-> o] : o \in {<<>>, <<Ord("", "q", "desc")>>}}
   \cup {[list |-> <<ColItem("", "s", "z"), ColItem("", "s", ""), ColItem("", "a", "")>>, order |-> <<>>],
         [list |-> <<ColItem("", "a", ""), ColItem("t5", "a", "w"), ColItem("", "g", "")>>, order |-> <<>>]}
+\* ------------------------------------------------------------------ C01: UPDATE / DELETE over the tables and conditions of C05
+\* assignment lists: every column type, values that lengthen and shorten the row, the empty string, several columns in an
+\* order that is not the table's, a column the table does not have, a column assigned twice
+Asg(c, v) == [c |-> c, val |-> v]
+Sets5 == {<<Asg("a", IntV(n))>> : n \in {1, 3}} \cup {<<Asg("s", StrV(s))>> : s \in {<<A>>, <<A, B, B>>, <<>>, <<A, 32, 32, B>>}}
+         \cup {<<Asg("c", BoolV(b))>> : b \in BOOLEAN} \cup {<<Asg("g", IntV(8))>>}
+         \cup {<<Asg("s", StrV(<<B>>)), Asg("a", IntV(2))>>, <<Asg("g", IntV(6)), Asg("c", BoolV(FALSE)), Asg("a", IntV(1))>>,
+               <<Asg("g", IntV(7)), Asg("s", StrV(<<A, B>>))>>}
+         \cup {<<Asg("zz", IntV(1))>>, <<Asg("a", IntV(2)), Asg("zz", IntV(1))>>, <<Asg("a", IntV(1)), Asg("a", IntV(2))>>}
+Dmls5 == {[k |-> "delete", set |-> <<>>]} \cup {[k |-> "update", set |-> s] : s \in Sets5}
+\* WHERE clauses that name a column the table does not have: the statement fails and changes nothing
+WheresBad5 == {<< <<Cmp(Col("", "zz"), "=", Lit(IntV(1)))>> >>, << <<Cmp(Col("", "a"), "=", Lit(IntV(1)))>>, <<Cmp(Col("", "zz"), "=", Lit(IntV(1)))>> >>,
+               << <<Cmp(Col("u5", "a"), "=", Lit(IntV(1)))>> >>}
 LimOffs == {[limit |-> l, offset |-> o] : l \in {-1, 0, 1, 2, 5, 8}, o \in {-1, 0, 1, 2, 5}} \cup {[limit |-> 1, offset |-> 8]}
 \* ... and the largest value there is ("skip n rows, keep the rest"): TLC's integers end at 2^31 - 1; the harness writes this one
 \* value as 9223372036854775807, the largest the parser takes - to a table of any size either number means "no limit"
@@ -237,6 +250,7 @@ Wheres7 == {<<>>, << <<Cmp(Col("", "m"), "<", Lit(IntV(100)))>> >>, << <<Cmp(Col
 
 Out(name, S) == PrintT(<<"SCN", ToJson([set |-> name, elems |-> SetToSeq(S)])>>)
 ASSUME /\ Out("tablesgrp7", TablesGrp7)
+ASSUME /\ Out("dmls5", Dmls5) /\ Out("wheresbad5", WheresBad5) /\ Out("rows5", Rows5)
 ASSUME /\ Out("tableskw5", TablesKw5) /\ Out("whereskw5", WheresKw5) /\ Out("listorderskw5", ListOrdersKw5)
 ASSUME /\ Out("tablesnull5", TablesNull5) /\ Out("wheresnull5", WheresNull5) /\ Out("listordersnull5", ListOrdersNull5)
        /\ Out("tables5", Tables5) /\ Out("wheres5", Wheres5) /\ Out("listorders5", ListOrders5) /\ Out("limoffs", LimOffs) /\ Out("limoffs5", LimOffs5)
